@@ -764,6 +764,18 @@ func constResults(fn *ssa.Function, idx int, val map[string]int64, depth int) (v
 				continue
 			}
 		}
+		if _, isBin := rv.(*ssa.BinOp); isBin {
+			if x, known := evalArith(rv, val, 0); known {
+				vals[x] = true
+				continue
+			}
+		}
+		if cv, isCv := returnedValue(r, idx).(*ssa.Convert); isCv {
+			if x, known := evalArith(cv, val, 0); known {
+				vals[x] = true
+				continue
+			}
+		}
 		switch x := rv.(type) {
 		case *ssa.Const:
 			if x.Value != nil && x.Value.Kind() == constant.Int {
